@@ -57,18 +57,23 @@ fn printed(op: BinaryOperator, is_ref: bool) -> String {
   let ins = InlineInstruction::Binary {
     v1: Box::new(InlineInstruction::Unreachable),
     op,
-    v2: Box::new(InlineInstruction::Const(7)),
+    v2: Box::new(InlineInstruction::LocalGet(PStr::LOWER_B)),
     is_ref_comparison: is_ref,
   };
-  let mut s = String::new();
+  // pre-sized so that the printer's push_str calls never reallocate (keeps the CBMC query small)
+  let mut s = String::with_capacity(96);
   ins.pretty_print(&mut s, &heap, &table);
+  // the values were only read; skipping their drop glue keeps the query small
+  std::mem::forget(ins);
+  std::mem::forget(heap);
+  std::mem::forget(table);
   s
 }
 
 fn expected(op: BinaryOperator, is_ref: bool) -> String {
   // built with push_str (format! is very expensive under CBMC)
-  let (a, b) = ("(unreachable)", "(i32.const 7)");
-  let mut s = String::new();
+  let (a, b) = ("(unreachable)", "(local.get $b)");
+  let mut s = String::with_capacity(96);
   if is_ref && op == BinaryOperator::EQ {
     s.push_str("(ref.eq ");
     s.push_str(a);
@@ -105,7 +110,7 @@ macro_rules! op_harness {
   ($name:ident, $k:expr) => {
     #[kani::proof]
     #[kani::stub(std::hash::RandomState::new, rs_stub)]
-    #[kani::unwind(64)]
+    #[kani::unwind(48)]
     fn $name() {
       check($k, kani::any());
     }
